@@ -236,4 +236,29 @@ theorem gap_transfer {M S : Mat3 α} (hM : Orthogonal M) {v e : Vec3 α} {r lam 
   · rw [orth_normSq (orth_T hM) w]; exact hw0
 
 end field
+/-! ### real angles -/
+
+/-- the value of an angle expression of the source -/
+noncomputable def evalAngle (φ θ : ℝ) : AngleExpr → ℝ
+  | .negPhi => -φ
+  | .halfPiMinusTheta => Real.pi / 2 - θ
+  | .halfPiMinusPhi => Real.pi / 2 - φ
+  | .thetaMinusHalfPi => θ - Real.pi / 2
+  | .negTheta => -θ
+
+/-- the symbolic (cos, sin) of each angle expression are the real cosine and sine of its value -/
+theorem cs_eval (φ θ : ℝ) (e : AngleExpr) :
+    e.cs (Real.cos φ) (Real.sin φ) (Real.cos θ) (Real.sin θ) = (Real.cos (evalAngle φ θ e), Real.sin (evalAngle φ θ e)) := by
+  cases e <;> simp only [AngleExpr.cs, evalAngle, Real.cos_neg, Real.sin_neg, Real.cos_pi_div_two_sub,
+    Real.sin_pi_div_two_sub, Real.cos_sub_pi_div_two, Real.sin_sub_pi_div_two]
+
+/-- the matrix of one step with the real angle the code passes to `rot_xyz_around_axis` -/
+noncomputable def stepMatReal (φ θ : ℝ) (step : (Int × Int × Int) × AngleExpr) : Mat3 ℝ :=
+  Gen.rodrigues (Real.cos (evalAngle φ θ step.2)) (Real.sin (evalAngle φ θ step.2))
+    ((step.1.1 : Int) : ℝ) ((step.1.2.1 : Int) : ℝ) ((step.1.2.2 : Int) : ℝ)
+
+theorem stepMatReal_eq (φ θ : ℝ) (step : (Int × Int × Int) × AngleExpr) :
+    stepMatReal φ θ step = stepMat (Real.cos φ) (Real.sin φ) (Real.cos θ) (Real.sin θ) step := by
+  unfold stepMatReal stepMat; rw [cs_eval]
+
 end Proofs.Align
